@@ -110,7 +110,13 @@ fn main() {
     }
     let out = std::io::stdout();
     let mut out = std::io::BufWriter::new(out.lock());
+    // sidecar: the operation being executed, so that a crash that cannot be caught (abort, stack
+    // overflow, allocation failure) can still be attributed to its input by the orchestrator
+    let current = std::env::var("MPDVERIF_CURRENT").ok();
     for op in ops {
+        if let Some(p) = &current {
+            let _ = std::fs::write(p, &op);
+        }
         let toks: Vec<&str> = op.split(' ').collect();
         let res = catch_unwind(AssertUnwindSafe(|| (fam.exec)(&toks))).unwrap_or_else(|_| "PANIC".to_string());
         writeln!(out, "{op} => {res}").unwrap();
